@@ -192,7 +192,7 @@ func run(c *hl.Ctx) error {
 		return nil
 	}
 	r := c.Rand()
-	n := c.Pick(200, 5000)
+	n := c.Pick(160, 8000)
 	if c.Search && c.Tier != "thorough" {
 		n = 1200
 	}
